@@ -354,11 +354,18 @@ pub struct RunResult {
 }
 
 /// the feeds after reorder: seeds, then every chunk still missing in archive order (like clone_from_archive)
+pub static SHORT_WRITES: std::sync::atomic::AtomicUsize = std::sync::atomic::AtomicUsize::new(0);
+
 pub fn run_scenario(sc: &Scenario, fault: Option<(u64, usize)>, prior: &[u8], out_idx: &Option<Idx>) -> (RunResult, Vec<usize>) {
     let rt = tokio::runtime::Builder::new_current_thread().build().unwrap();
     rt.block_on(async {
         let clone_ci = build_index(&sc.u, &sc.clone_idx, sc.hl);
-        let mut out = CloneOutput::new(MemFile::new(prior.to_vec(), fault), clone_ci);
+        let mut mf = MemFile::new(prior.to_vec(), fault);
+        // some fault-free runs on an output that accepts only a few bytes per write call (the caller has to offer the
+        // rest again, as with any AsyncWrite)
+        let sw = SHORT_WRITES.load(std::sync::atomic::Ordering::Relaxed);
+        if fault.is_none() && sw > 0 { mf.short = Some(sw); }
+        let mut out = CloneOutput::new(mf, clone_ci);
         let mut status = "OK".to_string();
         let mut moved = 0u64;
         let mut fed = vec![];
@@ -601,7 +608,9 @@ pub fn suite_clone(dir: &str, seed: u64, thorough: bool, st: &mut Stats) {
             match gen_chunked(&mut rng) { Some((s, c)) => (s, Some(c)), None => continue }
         };
         // uninterrupted run
+        SHORT_WRITES.store(if rng.chance(1, 3) { rng.range(1, 7) as usize } else { 0 }, std::sync::atomic::Ordering::Relaxed);
         let (r, feeds) = run_scenario(&sc, None, &sc.prior, &sc.out_idx);
+        if SHORT_WRITES.swap(0, std::sync::atomic::Ordering::Relaxed) > 0 { st.count("clone/short-writes"); }
         let line = case_line(&sc, &sc.prior, &sc.out_idx, None, &feeds);
         check_run(&sc, &sc.prior, &sc.out_idx, &r, &line, st);
         st.evaluations += 1;
